@@ -488,6 +488,15 @@ def finder_listing(sg, ops, strata_pts, rng, with_u=False):
         return
     positions, labels, exact = made
     n = len(positions)
+    # margin rule: two listed sites of DIFFERENT exact orbits closer than the tolerance in force (plus the noise on both) are
+    # legitimately merged by a tolerance-based grouping; such listings are not judged
+    eff = (eps if eps is not None else 1e-5) + 2 * noise
+    for i in range(n):
+        for j in range(i + 1, n):
+            if labels[i] != labels[j]:
+                d = max(abs(float(a - b) - round(float(a - b))) for a, b in zip(exact[i], exact[j]))
+                if d <= 4 * eff:
+                    return
     Uijs = None
     if with_u:
         Uijs = []
@@ -934,6 +943,13 @@ def finder_long_listing(sg, ops, case, pid, tlog=None):
     labels = [lab for lab, _ in items]
     exact = [p for _, p in items]
     n = len(positions)
+    # margin rule (as in finder_listing): sites of different exact orbits closer than 4 x (default tolerance + noise) are not judged
+    for i in range(n):
+        for j in range(i + 1, n):
+            if labels[i] != labels[j]:
+                d = max(abs(float(a - b) - round(float(a - b))) for a, b in zip(exact[i], exact[j]))
+                if d <= 4 * (1e-5 + 2e-7):
+                    return
     Uijs = None
     if want_u:
         Uijs = []
